@@ -245,13 +245,13 @@ def cmd_check(tier, prop):
         else:
             from unytsim import c18sim
 
-            total, nquick = c18sim.sweep_total(), 2500
+            total, nquick = c18sim.sweep_total(), 6000
         if tier == "quick":
             idxs = sorted(random.Random(f"{seed}:{prop}:sweep").sample(range(total), nquick))
         else:
             idxs = list(range(total))
         sweep_specs = [{"prop": prop, "seed": seed, "run": 10_000_000 + i, "sweep": i} for i in idxs]
-        _, nr2 = runner.run_batch(sweep_specs, timeout=prof["timeout"], budget_s=(30 if tier == "quick" else 3600),
+        _, nr2 = runner.run_batch(sweep_specs, timeout=prof["timeout"], budget_s=(40 if tier == "quick" else 3600),
                                   on_result=on_result)
         not_run += nr2
         log(f"{prop} sweep: {len(idxs) - nr2} of {total} systematic cases run")
